@@ -111,6 +111,10 @@ func init() {
 			{"1211-as-first-frame", [][]byte{ctl(0x1211, body1211([]byte("a"), 0, 3))}, false},
 			{"1212-as-first-frame", [][]byte{ctl(0x1212, body1211([]byte("a"), 0, 3))}, false},
 			{"reset-mid-file", [][]byte{ctl(0x1210, body1210("JS", r, []aFile{{[]byte("m"), randBytes(r, 50)}})), chunkBytes("JS", []byte("m"), 0, randBytes(r, 50))[:80]}, true},
+			{"file-announced-with-size-0-then-a-data-chunk-for-it", [][]byte{ctl(0x1210, body1210("JS", r, []aFile{{[]byte("empty"), nil}, {[]byte("other"), []byte{1, 2}}})), ctl(0x1211, body1211([]byte("empty"), 0, 0)),
+				chunkBytes("JS", []byte("empty"), 0, []byte{1, 2, 3}), chunkBytes("JS", []byte("empty"), 3, []byte{4}), ctl(0x1212, body1211([]byte("empty"), 0, 0))}, false},
+			{"file-announced-with-size-0-and-an-empty-chunk", [][]byte{ctl(0x1210, body1210("JS", r, []aFile{{[]byte("empty"), nil}})), chunkBytes("JS", []byte("empty"), 0, nil), ctl(0x1212, body1211([]byte("empty"), 0, 0))}, false},
+			{"1212-announcing-another-size-than-1210", [][]byte{ctl(0x1210, body1210("JS", r, []aFile{{[]byte("sz"), make([]byte, 40)}})), chunkBytes("JS", []byte("sz"), 0, make([]byte, 10)), ctl(0x1212, body1211([]byte("sz"), 0, 0)), ctl(0x1212, body1211([]byte("sz"), 0, 1<<31))}, false},
 			{"name-with-dotdot", [][]byte{ctl(0x1210, body1210("JS", r, []aFile{{[]byte("../../escape"), []byte{1}}})), ctl(0x1211, body1211([]byte("../../escape"), 0, 1)), chunkBytes("JS", []byte("../../escape"), 0, []byte{7}), ctl(0x1212, body1211([]byte("../../escape"), 0, 1))}, false},
 		}
 		for i, h := range hostile {
